@@ -273,6 +273,13 @@ func judgeC09(s *stored, ls loadSpec, st *store.Store, r *loadResult, start []ci
 		fs = append(fs, sched.Finding{Key: "rebuild-entries:" + ls.Loader, What: fmt.Sprintf("rebuilt log holds %v, the original (reachable from the given heads) holds %v", payloads(r.log.Values().Slice()), s.names(want))})
 		return outcome, fs
 	}
+	// the same entries, not only the same hashes: blocks are decoded by several workers at once
+	for _, e := range r.log.GetEntries().Slice() {
+		if o := s.byHash[e.GetHash().String()]; o != nil && seqx.DumpEntry(e) != seqx.DumpEntry(o) {
+			fs = append(fs, sched.Finding{Key: "rebuild-entry-content:" + ls.Loader, What: fmt.Sprintf("rebuilt entry %s differs from the original:\n  rebuilt  %s\n  original %s", string(o.GetPayload()), seqx.DumpEntry(e), seqx.DumpEntry(o))})
+			break
+		}
+	}
 	if r.log.GetID() != s.log.GetID() {
 		fs = append(fs, sched.Finding{Key: "rebuild-id:" + ls.Loader, What: "rebuilt log has id " + r.log.GetID()})
 	}
